@@ -282,6 +282,16 @@ func cmdCheck(args []string) int {
 	} else {
 		fmt.Println("SMT files in", dir)
 	}
+	if b, err := os.ReadFile(filepath.Join(*verif, "solver_hints.json")); err == nil {
+		var h struct {
+			SplitFirst []string `json:"split_first"`
+		}
+		if json.Unmarshal(b, &h) == nil {
+			for _, n := range h.SplitFirst {
+				splitFirst[n] = true
+			}
+		}
+	}
 	results := solveAll(dir, vcs, timeout, *tier == "thorough", *workers)
 
 	known := loadKnown(*verif)
@@ -304,6 +314,7 @@ func cmdCheck(args []string) int {
 	var samples []map[string]interface{}
 	knownSeen := map[string]bool{}
 	slowest := 0.0
+	var hard []map[string]interface{}
 	for _, r := range results {
 		if r.Class == "canary" {
 			if r.Status == "unsat" {
@@ -327,6 +338,9 @@ func cmdCheck(args []string) int {
 			solverTime += r.Time
 			if r.Time > slowest {
 				slowest = r.Time
+			}
+			if r.Time > 3 || strings.Contains(r.Solver, "/") {
+				hard = append(hard, map[string]interface{}{"obligation": r.Name, "solver": r.Solver, "time_s": round2(r.Time)})
 			}
 			if len(samples) < 12 && (r.Class == "ensures" || r.Class == "inv" || r.Class == "pre" || len(samples) < 4) {
 				samples = append(samples, map[string]interface{}{"obligation": r.Name, "class": r.Class, "solver": r.Solver, "time_s": r.Time, "smt_bytes": r.Size, "what": r.Desc})
@@ -424,6 +438,7 @@ func cmdCheck(args []string) int {
 				"discharged_by_solver":     bySolver,
 				"solver_time_s":            round2(solverTime),
 				"slowest_obligation_s":     round2(slowest),
+				"hard_obligations":         hard,
 				"per_obligation_timeout_s": timeout,
 				"samples":                  samples,
 				"known_findings_seen":      sortedKeys(knownSeen),
